@@ -78,6 +78,11 @@ class DataIndexView(BaseDataIndex):
             return _FilterNode(key, children, *args)
 
         kwargs = {"prefix": prefix} if prefix is not None else {}
+        if prefix and ensure_loaded:
+            # NOTE: the prefix might be inside of a not yet loaded directory
+            item = self._index.longest_prefix(prefix)
+            if item:
+                self._index._load(*item)
         stack = deque([self.traverse(_node_factory, **kwargs)])
         while stack:
             node = stack.popleft()
